@@ -408,6 +408,12 @@ func genSingle(seed uint64, prop string, k SingleKnobs) *Plan {
 			f.To = f.From + rf.Dur(5*time.Second, 8*time.Minute)
 			if f.Mode == "slow" {
 				f.Latency = rf.Dur(200*time.Millisecond, 25*time.Second)
+				// never within 100 ms of the integration's own per-attempt time-out: an
+				// answer that leaves the receiver at the instant the sender gives up is
+				// delivered for the one and failed for the other
+				if to := rc.Webhooks[f.Integ].Timeout; to > 0 && f.Latency > to-100*time.Millisecond && f.Latency < to+100*time.Millisecond {
+					f.Latency = to + 150*time.Millisecond
+				}
 			}
 			p.Faults = append(p.Faults, f)
 		}
